@@ -110,6 +110,8 @@ def run(chk):
     chk.section("iteration", lambda: iteration(chk))
     chk.section("unwrap-helpers", lambda: unwrap_helpers(chk))
     chk.section("array-comprehension", lambda: array_comprehension(chk))
+    for i in range(NCH_B):
+        chk.section(f"bounded-{i}", lambda i=i: bounded(chk, i))
     chk.expected_min_obligations = 20
     chk.assumptions += [
         "HUGR op semantics (hugr std collections.array / borrow_arr, prelude): array.get returns Some(a[i]) iff i < n and the unchanged array; array.set returns Right((old, a[i:=v])) iff i < n; borrow_array.borrow(a, i) panics unless i < n and element i is present, yields the element and marks it lent; borrow_array.return panics unless i < n and element i is lent; pop_left/pop_right remove the first/last element; convert itousize reinterprets the 64-bit integer as unsigned",
@@ -117,7 +119,7 @@ def run(chk):
         "array lengths are below 2^63",
         "unpacking patterns with at most 2 names on each side of the starred target are enumerated",
     ]
-    chk.not_covered += ["array comprehensions (visit_DesugaredArrayComp) and copy() as contracts (the native replay exercises them); that a `for` loop calls __next__ until nothing (C03); the borrow-array runtime itself"]
+    chk.not_covered += ["copy() as a contract (CopyInoutCompiler; the bounded layer runs it); that a `for` loop calls __next__ until nothing (C03); the borrow-array runtime itself beyond the bounded layer"]
 
 
 class Pfx:
@@ -864,6 +866,26 @@ except Exception as ex:
 shutil.rmtree(d, ignore_errors=True)
 print(json.dumps(out))
 '''
+
+
+NCH_B = 8
+
+
+def bounded(chk, i):
+    """BOUNDED: array programs on the emulator against list semantics with panics (C19_oracle.py)"""
+    import json
+    from pyvc.report import run_replay
+    from .C19_oracle import ORACLE, DRIVER
+    res = run_replay(ORACLE + DRIVER, {"chunk": i, "nchunks": NCH_B}, chk.repo, timeout=6000)
+    if "evaluations" not in res:
+        chk.undecided(f"bounded[{i}/{NCH_B}]:array-programs", "oracle run failed: " + json.dumps(res)[:800])
+        return
+    w = res.get("witness")
+    o = chk.bounded_result(f"bounded[{i}/{NCH_B}]:emulator==list-semantics(read/write/augmented-write/copy/iteration/comprehension/unpacking/nested cells/double lending; every index from -2 to n+1; slice {i} of {NCH_B})",
+                           not res.get("violates"), res["evaluations"], detail=res.get("detail") or f"{res['evaluations']} runs agree (values, and panic exactly for indices outside 0..n-1 and for lending a row twice)",
+                           witness=w, func="guppylang_internals.std._internal.compiler.array:ArrayGetitemCompiler")
+    if w:
+        o.replay.update({"script": ORACLE + DRIVER, "input": {"chunk": 0, "nchunks": 1, "only": w["program"]}})
 
 
 def array_comprehension(chk):
